@@ -111,6 +111,19 @@ fn check_shape(shape: &Ast, idx: u64, all_extras: bool, light: bool, count_disti
             for sep in ["\n", "\t", " \n ", "/**/", " //c\n"] {
                 check_rendering_with(&ast, &want, Parens::Minimal, false, Some(sep), st);
             }
+            // every white-space character there is (the vertical tab, U+0085, U+00A0, U+2000.., U+3000 ...) as
+            // the separator: all of them for ASTs with <= 2 operators, one (rotating) above
+            let ws: Vec<char> = (0u32..=0x3000).filter_map(char::from_u32).filter(|c| c.is_whitespace()).collect();
+            if all_kinds {
+                for w in &ws {
+                    check_rendering_with(&ast, &want, Parens::Minimal, false, Some(&w.to_string()), st);
+                    st.count("white-space-kind-renderings");
+                }
+            } else {
+                let w = ws[(idx as usize) % ws.len()];
+                check_rendering_with(&ast, &want, Parens::Minimal, false, Some(&w.to_string()), st);
+                st.count("white-space-kind-renderings");
+            }
         }
         let npos = Renderer::positions(&ast);
         if all_extras {
@@ -321,7 +334,7 @@ pub fn run(cfg: &Cfg) -> Report {
     Report {
         property: ID,
         level: "exploration",
-        rule: format!("every AST with <= {k_full} operator nodes over the full alphabet (14 binary, 2 prefix, 9 assignment operators, f e, f(), f(l, r)) and with <= {k_rep} over one representative per precedence/associativity class; per AST: all-variable leaves plus each leaf replaced by a literal (all four literal kinds for ASTs with <= 2 operators, kinds cycled above), and for ASTs with <= 2 operators every variable, assignment-target and function position named like a builtin (`max`, `if`, `math::abs`, `len`, `str::from`, `floor`) in turn; renderings: minimal parentheses, fully parenthesised, `x ^ -y` bare-prefix form where applicable, redundant pair (single and doubled) at every sub-expression for ASTs with <= 2 operators and at one rotating position above; each with single-space and compact spacing; the minimal rendering of the all-variable variant also with its tokens on separate lines, separated by tabs and by comments. the deepest representative level of the thorough tier is checked with the minimal rendering only; plus every flat infix sequence of <= 5 (quick) / 6 (thorough) binary operators over all 14 (reference: precedence climbing), plus scaling families (same-operator chains for all 14 operators, assignment chains, prefix chains, call chains, right-nested groups, precedence ladders up and down) at every size 1..20 and 33, 64, 65, 129 (quick) / 1..40 and up to 400 (thorough). Non-trivial = at least two operator nodes; every AST is enumerated once (representative ASTs are counted only above the full-alphabet size)"),
+        rule: format!("every AST with <= {k_full} operator nodes over the full alphabet (14 binary, 2 prefix, 9 assignment operators, f e, f(), f(l, r)) and with <= {k_rep} over one representative per precedence/associativity class; per AST: all-variable leaves plus each leaf replaced by a literal (all four literal kinds for ASTs with <= 2 operators, kinds cycled above), and for ASTs with <= 2 operators every variable, assignment-target and function position named like a builtin (`max`, `if`, `math::abs`, `len`, `str::from`, `floor`) in turn; renderings: minimal parentheses, fully parenthesised, `x ^ -y` bare-prefix form where applicable, redundant pair (single and doubled) at every sub-expression for ASTs with <= 2 operators and at one rotating position above; each with single-space and compact spacing; the minimal rendering of the all-variable variant also with its tokens on separate lines, separated by tabs and by comments, and separated by each of the white-space characters of `char::is_whitespace` (all 25 for ASTs with <= 2 operators, one rotating above). the deepest representative level of the thorough tier is checked with the minimal rendering only; plus every flat infix sequence of <= 5 (quick) / 6 (thorough) binary operators over all 14 (reference: precedence climbing), plus scaling families (same-operator chains for all 14 operators, assignment chains, prefix chains, call chains, right-nested groups, precedence ladders up and down) at every size 1..20 and 33, 64, 65, 129 (quick) / 1..40 and up to 400 (thorough). Non-trivial = at least two operator nodes; every AST is enumerated once (representative ASTs are counted only above the full-alphabet size)"),
         nontrivial_set: "counter:nontrivial-distinct",
         exhaustive: true,
         bound_completed: format!("AST size {k_full} (full alphabet), {k_rep} (class representatives)"),
